@@ -377,7 +377,7 @@ Qed.
 
 Theorem decode_frame_encode_frame bpp ppr types rows :
   0 < bpp ->
-  (N.of_nat (bpp * ppr) < ALLOC_FAILS_FROM)%N ->
+  (N.of_nat (bpp * ppr) <= USIZE_MAX)%N ->
   length types = length rows ->
   Forall valid_type types ->
   Forall (fun r => length r = bpp * ppr) rows ->
@@ -385,9 +385,7 @@ Theorem decode_frame_encode_frame bpp ppr types rows :
 Proof.
   intros Hb Ha Hl Hv Hr. unfold decode_frame, encode_frame.
   rewrite <- Nat2N.inj_mul.
-  replace (USIZE_MAX <? N.of_nat (bpp * ppr))%N with false
-    by (symmetry; apply N.ltb_ge; unfold USIZE_MAX, ALLOC_FAILS_FROM in *; lia).
-  replace (ALLOC_FAILS_FROM <=? N.of_nat (bpp * ppr))%N with false by (symmetry; apply N.leb_gt; exact Ha).
+  replace (USIZE_MAX <? N.of_nat (bpp * ppr))%N with false by (symmetry; apply N.ltb_ge; exact Ha).
   change (repeat x00 (bpp * ppr)) with (prior_of None (bpp * ppr)).
   apply frame_go_encode_rows; try assumption.
   - cbn [prior_of]. apply repeat_length.
